@@ -237,7 +237,20 @@ func (f *flattener) flatten(selectionSet *graphql.SelectionSet, typ graphql.Type
 		if err := f.flattenFragments(selectionSet, typ, &selections); err != nil {
 			return nil, err
 		}
-		selections, err := mergeSameAlias(selections)
+		// Selections with the same alias are merged below and the merged
+		// selection keeps only one copy's directives, so every occurrence is
+		// decided by its own directives first.
+		included := selections[:0]
+		for _, selection := range selections {
+			ok, err := graphql.ShouldIncludeNode(selection.Directives)
+			if err != nil {
+				return nil, oops.Wrapf(err, "applying directive for %s", selection.Alias)
+			}
+			if ok {
+				included = append(included, selection)
+			}
+		}
+		selections, err := mergeSameAlias(included)
 		if err != nil {
 			return nil, err
 		}
